@@ -121,15 +121,20 @@ func runC12(p *Prog, r *Report) {
 			}
 		}
 	}
+	absorbed = closingHelpers(p)
 	for _, fn := range p.SrcFuncs() {
 		if SummGuardedSend(fn) != nil {
 			continue // helper bodies are represented by their call sites
 		}
-		fp := Paths(fn)
+		if absorbed[fn] {
+			continue // a small helper that closes channels for its only callers: expanded into them below
+		}
+		fp := pathsAbsorbing(fn)
 		if fp.Truncated {
 			r.Undecided("C12.R1", FuncName(fn), p.Pos(fn.Pos()), "function has a tractable number of paths", "path enumeration truncated")
 		}
 		for _, s := range fp.Segs {
+			s.Events = ownEvents(fn, s.Events)
 			for _, e := range s.Events {
 				if e.Kind == EvClose {
 					add(closes, e.Chan, chanSite{fn: fn, instr: e.Instr, seg: s, ev: e, kind: "close"})
@@ -468,10 +473,13 @@ func (a *awaitState) member(fn *ssa.Function, why string, depth int) {
 	key := FuncName(fn)
 	pos := p.Pos(fn.Pos())
 	var bad []string
-	fp := Paths(fn)
+	if absorbed[fn] {
+		return // judged inside its callers, where its channels are known
+	}
+	fp := pathsAbsorbing(fn)
 	seenInstr := map[ssa.Instruction]bool{}
 	for _, s := range fp.Segs {
-		for _, e := range s.Events {
+		for _, e := range ownEvents(fn, s.Events) {
 			if seenInstr[e.Instr] && e.Kind != EvSelect {
 				continue
 			}
@@ -563,7 +571,7 @@ func (a *awaitState) member(fn *ssa.Function, why string, depth int) {
 // freshBufferedSend: a send on a channel made in the same function with a constant capacity that
 // covers all sends to it on this loop-free path never blocks.
 func freshBufferedSend(p *Prog, s *Seg, e *Event) bool {
-	mcs := p.MakeChans(e.Chan)
+	mcs := p.MakeChans(s.Resolve(e.Chan))
 	if len(mcs) != 1 || mcs[0].Parent() != s.Fn || s.End != nil || s.Start != s.Fn.Blocks[0] {
 		return false
 	}
@@ -789,6 +797,96 @@ func dedupe(in []string) []string {
 		if !seen[x] {
 			seen[x] = true
 			out = append(out, x)
+		}
+	}
+	return out
+}
+
+// absorbed: small helpers that close channels on behalf of their callers (`abortStart(done, errc, err)`).
+// The channel discipline is judged in the callers, with the helper expanded in place, because only there
+// the channels, the path (early return, before any goroutine is started) and the goroutine are known.
+var absorbed map[*ssa.Function]bool
+
+func closingHelpers(p *Prog) map[*ssa.Function]bool {
+	out := map[*ssa.Function]bool{}
+	for _, fn := range p.SrcFuncs() {
+		if fn.Parent() != nil || fn.Synthetic != "" || !inlineCandidate(fn) {
+			continue
+		}
+		closes := false
+		for _, b := range fn.Blocks {
+			for _, in := range b.Instrs {
+				if c, ok := in.(*ssa.Call); ok {
+					if bi, isB := c.Call.Value.(*ssa.Builtin); isB && bi.Name() == "close" {
+						if _, isP := c.Call.Args[0].(*ssa.Parameter); isP {
+							closes = true
+						}
+					}
+				}
+			}
+		}
+		if !closes {
+			continue
+		}
+		sites := p.CallSites(fn)
+		ok := len(sites) > 0
+		for _, cs := range sites {
+			if _, isCall := cs.(*ssa.Call); !isCall || cs.Parent().Pkg != fn.Pkg || cs.Parent() == fn {
+				ok = false // started as a goroutine, deferred, or called from elsewhere: analysed on its own
+			}
+		}
+		// no use as a function value
+		if ok {
+			for _, g := range p.SrcFuncs() {
+				for _, b := range g.Blocks {
+					for _, in := range b.Instrs {
+						if _, isCI := in.(ssa.CallInstruction); isCI {
+							continue
+						}
+						var ops [8]*ssa.Value
+						for _, op := range in.Operands(ops[:0]) {
+							if op != nil && *op == ssa.Value(fn) {
+								ok = false
+							}
+						}
+					}
+				}
+			}
+		}
+		if ok {
+			out[fn] = true
+		}
+	}
+	return out
+}
+
+// pathsAbsorbing: the plain paths, or - for a function that calls an absorbed helper - the paths with
+// helpers expanded (ownEvents then drops what belongs to other expanded helpers).
+func pathsAbsorbing(fn *ssa.Function) *FnPaths {
+	for _, b := range fn.Blocks {
+		for _, in := range b.Instrs {
+			if c, ok := in.(*ssa.Call); ok && absorbed[StaticCallee(&c.Call)] {
+				fp := PathsInl(fn)
+				// private copy: the events are filtered by the caller
+				cp := *fp
+				cp.Segs = nil
+				for _, s := range fp.Segs {
+					s2 := *s
+					cp.Segs = append(cp.Segs, &s2)
+				}
+				return &cp
+			}
+		}
+	}
+	return Paths(fn)
+}
+
+// ownEvents keeps the events of fn itself and of absorbed helpers expanded into it.
+func ownEvents(fn *ssa.Function, evs []*Event) []*Event {
+	var out []*Event
+	for _, e := range evs {
+		if e.Instr == nil || e.Instr.Parent() == fn || absorbed[e.Instr.Parent()] {
+			out = append(out, e)
 		}
 	}
 	return out
